@@ -11,7 +11,7 @@ C08 — what a user relies on, stated on the declared hierarchy only (no queues,
 -/
 import Model.Hier
 namespace Spec.Hier
-open Model.Hier (Name Meth Cls Ifc Graph getClass getIface findM)
+open Model.Hier (Name Meth Cls Ifc Graph getClass getIface findM Kind throwableName exceptionName errorName)
 
 /-- interface `i` is `k` or extends it, directly or indirectly -/
 inductive IReach (G : Graph) : Name → Name → Prop
@@ -82,5 +82,17 @@ def WF (G : Graph) : Prop :=
 
 /-- `c` is the class registered under its name -/
 def Declared (G : Graph) (c : Cls) : Prop := getClass G c.name = some c
+
+/-- the `Throwable` fallback of `catchTypeMatches` is harmless when `Exception` and `Error` objects are
+`Throwable` (std declares `Exception implements Throwable`; there is no `Error` class) -/
+def ThrowableOK (G : Graph) (c : Cls) : Prop :=
+  (IsA G c exceptionName → IsA G c throwableName) ∧ (IsA G c errorName → IsA G c throwableName)
+
+/-- what each of the four implementations needs beyond acyclicity -/
+def KindOK (G : Graph) (c : Cls) : Kind → Prop
+  | .op => WF G ∧ Declared G c
+  | .param => True
+  | .this => True
+  | .thrown => ThrowableOK G c
 
 end Spec.Hier
